@@ -50,6 +50,10 @@ macro_rules! qwt_get_law {
             } else {
                 assert!(g.is_none());
             }
+            // iter() / into_iter() start at (0, len): C12
+            assert!(t.iter().len() == $n);
+            assert!(t.iter().next() == Some(s[0]));
+            assert!(t.iter().next_back() == Some(s[$n - 1]));
             kani::cover!(i == $n - 1, "last position");
             kani::cover!(i == usize::MAX, "largest position");
             core::mem::forget(t);
@@ -112,7 +116,7 @@ macro_rules! qwt_select_law {
             } else {
                 assert!(r.is_none());
             }
-            kani::cover!(k + 1 == occ(&s, c, $n) && k > 0, "last of several occurrences");
+            kani::cover!(k.wrapping_add(1) == occ(&s, c, $n) && k > 0, "last of several occurrences");
             kani::cover!(k == usize::MAX, "largest k");
             kani::cover!(occ(&s, c, $n) == 0, "symbol does not occur");
             core::mem::forget(t);
@@ -145,11 +149,11 @@ qwt_select_law!(c01_select_u8_n3, u8, 3, 2, false, 8);
 // @bound QWaveletTree<u8, ModelRS>: length 4 (s[3] = 255); select for every symbol and every k of the machine range, checked and unchecked
 // @funcs QWaveletTree::new, QWaveletTree::select, QWaveletTree::select_unchecked
 qwt_select_law!(c01_select_u8_n4, u8, 4, 3, false, 8);
-// @h props=C01,C09 tier=quick family=M mem=5 timeout=2400 stubs=ModelRS,PrefetchSupport::new->default,PrefetchSupport::approx_rank_unchecked->monotone_multiple_of_2048,utils::stable_partition_of_4->fixed_array_reference(c17) role=qwt.rank.u8.pfs
+// @h props=C01,C09 tier=quick family=M mem=24 timeout=2400 stubs=ModelRS,PrefetchSupport::new->default,PrefetchSupport::approx_rank_unchecked->monotone_multiple_of_2048,utils::stable_partition_of_4->fixed_array_reference(c17) role=qwt.rank.u8.pfs
 // @bound QWaveletTree<u8, ModelRS, true> (prefetch support on; PrefetchSupport replaced by its contract stub): length 3 (s[0] = 255); rank == rank_prefetch for all arguments
 // @funcs QWaveletTree::new, QWaveletTree::rank, QWaveletTree::rank_prefetch, QWaveletTree::rank_prefetch_unchecked, QWaveletTree::rank_prefetch_superblocks_unchecked
 qwt_rank_law!(c01_rank_u8_n3_pfs, u8, 3, 0, true, 8);
-// @h props=C01 tier=quick family=M mem=5 timeout=2400 stubs=ModelRS,PrefetchSupport::new->default,utils::stable_partition_of_4->fixed_array_reference(c17) role=qwt.get.u8.pfs
+// @h props=C01 tier=quick family=M mem=24 timeout=2400 stubs=ModelRS,PrefetchSupport::new->default,utils::stable_partition_of_4->fixed_array_reference(c17) role=qwt.get.u8.pfs
 // @bound QWaveletTree<u8, ModelRS, true>: length 3 (s[1] = 255): get
 // @funcs QWaveletTree::new, QWaveletTree::get
 qwt_get_law!(c01_get_u8_n3_pfs, u8, 3, 1, 4, true, 8);
@@ -241,7 +245,7 @@ macro_rules! qwt_concrete {
                 assert!(sel.is_none());
             }
             kani::cover!(c > mx, "symbol above the maximum");
-            kani::cover!(c <= mx && occ(&s, c, $n) == 0, "hole in the alphabet");
+            kani::cover!(c <= mx && sel.is_some(), "valid symbol with an occurrence");
             core::mem::forget(t);
         }
     };
@@ -312,4 +316,95 @@ fn c01_false_twin() {
     let t = Tree::<u8, false>::new(&mut w[..]);
     assert!(t.get(0) == Some(255));
     core::mem::forget(t);
+}
+
+// ------------------------------------------------------------------------------------------ C19
+
+// @h props=C19,C01:t tier=quick family=M mem=6 timeout=2400 stubs=ModelRS,utils::stable_partition_of_4->fixed_array_reference(c17) role=qwt.paths.u8
+// @bound QWaveletTree<u8, ModelRS>: length 3 (s[2] = 255): new / From<Vec> / collect give equal values, Clone is equal, a sequence differing in one symbolic position gives an unequal value
+// @funcs QWaveletTree::new, QWaveletTree::from<Vec>, QWaveletTree::from_iter, QWaveletTree::clone, QWaveletTree::eq
+#[kani::proof]
+#[kani::unwind(10)]
+#[kani::stub(crate::utils::stable_partition_of_4, part4_stub)]
+fn c19_qwt_paths_u8_n3() {
+    let s = any_seq!(u8, 3, 2);
+    let mut w = s;
+    let t1 = Tree::<u8, false>::new(&mut w[..]);
+    let t2 = Tree::<u8, false>::from(s.to_vec());
+    let t3: Tree<u8, false> = s.iter().copied().collect();
+    assert!(t1 == t2);
+    assert!(t2 == t3);
+    let tc = t1.clone();
+    assert!(tc == t1);
+    // different sequence => different value
+    let p: usize = kani::any();
+    kani::assume(p < 2);
+    let v: u8 = kani::any();
+    kani::assume(v != s[p]);
+    let mut s2 = s;
+    s2[p] = v;
+    let t4 = Tree::<u8, false>::new(&mut s2[..]);
+    assert!(t4 != t1);
+    kani::cover!(p == 1, "difference in the middle");
+    core::mem::forget(t1);
+    core::mem::forget(t2);
+    core::mem::forget(t3);
+    core::mem::forget(tc);
+    core::mem::forget(t4);
+}
+
+// @h props=C19 tier=quick family=M mem=6 timeout=2400 stubs=ModelRS,utils::stable_partition_of_4->fixed_array_reference(c17) role=qwt.widths
+// @bound the same concrete numbers [1,0,2,4,5,3] carried as u8, u32 and u128: get / rank / select / len / n_levels agree for symbolic arguments
+// @funcs QWaveletTree::new, QWaveletTree::get, QWaveletTree::rank, QWaveletTree::select
+#[kani::proof]
+#[kani::unwind(10)]
+#[kani::stub(crate::utils::stable_partition_of_4, part4_stub)]
+fn c19_qwt_widths() {
+    let mut a: [u8; 6] = [1, 0, 2, 4, 5, 3];
+    let mut b: [u32; 6] = [1, 0, 2, 4, 5, 3];
+    let mut c: [u128; 6] = [1, 0, 2, 4, 5, 3];
+    let ta = Tree::<u8, false>::new(&mut a[..]);
+    let tb = Tree::<u32, false>::new(&mut b[..]);
+    let tc = Tree::<u128, false>::new(&mut c[..]);
+    assert!(ta.len() == tb.len() && tb.len() == tc.len());
+    assert!(ta.n_levels() == tb.n_levels() && tb.n_levels() == tc.n_levels());
+    let sym: u8 = kani::any();
+    let i: usize = kani::any();
+    assert!(ta.get(i).map(|x| x as u128) == tb.get(i).map(|x| x as u128));
+    assert!(tb.get(i).map(|x| x as u128) == tc.get(i));
+    assert!(ta.rank(sym, i) == tb.rank(sym as u32, i));
+    assert!(tb.rank(sym as u32, i) == tc.rank(sym as u128, i));
+    assert!(ta.select(sym, i) == tb.select(sym as u32, i));
+    assert!(tb.select(sym as u32, i) == tc.select(sym as u128, i));
+    kani::cover!(ta.rank(sym, i) == Some(1), "a count of one");
+    kani::cover!(ta.select(sym, i).is_some(), "an existing occurrence");
+    core::mem::forget(ta);
+    core::mem::forget(tb);
+    core::mem::forget(tc);
+}
+
+// ------------------------------------------------------------------------------------------ C18
+
+// @h props=C18 tier=quick family=M mem=6 timeout=2400 stubs=ModelRS,utils::stable_partition_of_4->fixed_array_reference(c17) role=purity.qwt
+// @bound QWaveletTree<u8, ModelRS>: length 3: a batch of queries with symbolic arguments leaves the tree equal to its snapshot; repeating each query gives the same answer
+// @funcs QWaveletTree::get, QWaveletTree::rank, QWaveletTree::rank_prefetch, QWaveletTree::select, QWaveletTree::eq
+#[kani::proof]
+#[kani::unwind(10)]
+#[kani::stub(crate::utils::stable_partition_of_4, part4_stub)]
+fn c18_purity_qwt() {
+    let s = any_seq!(u8, 3, 1);
+    let mut w = s;
+    let t = Tree::<u8, false>::new(&mut w[..]);
+    let snap = t.clone();
+    let c: u8 = kani::any();
+    let i: usize = kani::any();
+    let a1 = t.get(i);
+    let b1 = t.rank(c, i);
+    let d1 = t.select(c, i);
+    assert!(t == snap);
+    assert!(t.get(i) == a1 && t.rank(c, i) == b1 && t.select(c, i) == d1);
+    assert!(t == snap);
+    kani::cover!(a1.is_some() && b1.is_some() && d1.is_some(), "queries that answer");
+    core::mem::forget(t);
+    core::mem::forget(snap);
 }
